@@ -325,12 +325,12 @@ def eval_names(job):
     kinds = sorted({str(n[0][0]) for n in nodes})
     n_named = sum(1 for n in nodes if n[-1])
     dw = pp.ParserElement.DEFAULT_WHITE_CHARS
+    import time as _t
     recs = []
     inputs = list(job["inputs"])
     if any(m[0] != "none" for m in job.get("modes", [])):
         # the model predicts a memoized run by the plain parser (packrat_transparent): keep the inputs on which the plain
         # parser is fast, too (exponential backtracking without the cache would stall the driver, not the real code)
-        import time as _t
         fast = []
         for s in inputs:
             pp.ParserElement.disable_memoization()
@@ -344,13 +344,18 @@ def eval_names(job):
         inputs = fast
     for mode in job.get("modes", [("none",)]):
         for s in inputs:
+            if mode[0] == "lr" and len(s) > 10:
+                continue     # the seed-growing model re-evaluates finished Forwards: keep its inputs short
             corr_parse.set_mode(pp, mode)
+            t0 = _t.process_time()
             try:
                 impl, toks, probs = common.with_alarm(corr_parse.CASE_TIMEOUT, real_outcome, pp, root, s)
             except common.CaseTimeout:
                 impl, toks, probs = "hang", None, []
             finally:
                 pp.ParserElement.disable_memoization()
+            if mode[0] == "none" and _t.process_time() - t0 > 0.15:
+                impl, toks, probs = "hang", None, []     # exponential backtracking: the model would take minutes
             line = dumps([Sym("ppnames"), corr_parse.mode_sexp(mode), Sym("parse"), FUEL, ri, dw, s, False, [], nodes])[1:-1]
             tline = gram.model_line(corr_parse.mode_sexp(mode), "parse", FUEL, ri, dw, s, False, (), nodes)
             recs.append((s, list(mode), impl, toks, line, tline, probs))
@@ -651,6 +656,10 @@ def constructed_job(case):
 def twin_of(prog):
     """pick a results name used by exactly one `name` statement without actions on it; returns (name, listall, twin program,
     is_group) or None.  The twin wraps the named element in Located: Located(e)("n") reports e's match under `value`."""
+    # Located pre-parses whitespace itself: transparent only when no token can match a blank
+    if any(st[1] == "CharsNotIn" or (st[1] in ("Literal", "Word", "Keyword", "CaselessLiteral") and " " in json.dumps(st[2:]))
+           for st in prog):
+        return None
     names = [st for st in prog if st[1] == "name"]
     acted = {st[2] for st in prog if st[0] == "_" and st[1] in ("action", "condition")}
     defs = {st[0]: st for st in prog if st[0] != "_"}
@@ -705,6 +714,10 @@ def twin_job(job):
     # token-replacing action a list-valued name reports the first token only (theorem replaced_tokens_first_only; reported
     # to the lead as a candidate finding) - out of this oracle's region
     if b1.env[var].parseAction or any(e.resultsName == name and e.parseAction for e in gram._walk_all(g1)):
+        return 0, []
+    # a named element that contains itself (through a Forward): the twin's Located would nest inside `value`
+    obj = b1.env[var]
+    if any(x is obj for c in obj.recurse() for x in gram._walk_all(c)):
         return 0, []
     pp.ParserElement.disable_memoization()
     n, bad = 0, []
